@@ -772,5 +772,5 @@ def run(ctx):
 MANIFEST_ENTRY = {
     "technique": "static analysis: abstract evaluation (rules/absint.py) over every range shape and every ordering of count and bounds of the parse-time matcher, the generated integer patterns and the generated float conditions, each compared with the documented range semantics; of Range::new on one spelling per grammar production under the integer and float end rules; of the first-match scan and the fallback analysis; MIR dominance of range validation, MIR cast scan; abstract evaluation of deserialize_all_pairs (every declared branch kept, repeats included) and of populate_with_count_arg for every numeric type x literal kind x count (narrowing casts modelled); MIR return summaries of the 30 RangeNumber::from_u64 / from_i64 / from_f64 impls",
     "level_text": "Structural / finite case analysis: `a..b` excludes b, `a..=b` includes it, open sides are unbounded, the first declared branch wins - decided for the three encodings (parser matcher, generated patterns, generated float conditions) by evaluating the source over all orderings a comparison can distinguish, plus validation dominance and lossless literal conversion on the CFG. No translation is loaded or rendered.",
-    "level_note": "Trusted: Rust pattern/RangeBounds semantics; str::parse. Not decided: behaviour at numeric extremes, concrete selections. Known and undecided (DESIGN 11.17, hunts/C04): `_` nested in a float count list is dropped at run time but not at parse time.",
+    "level_note": "Trusted: Rust pattern/RangeBounds semantics; str::parse. Not decided: behaviour at numeric extremes, concrete selections.",
 }
